@@ -131,16 +131,16 @@ def names(mod, lst, **kw):
     return [H(f"{mod}::{n}", **kw) for n in lst]
 
 
-C10_TYPES = ["u32", "bool", "u64", "tup2", "arru32x1", "optu8"]
+C10_TYPES = ["u32", "bool", "u64", "tup2", "arru32x1", "i8"]
 PLAN["C10"] = dict(
-    quick=lambda seed: [dict(harnesses=names("c10", [f"c10_{t}_{m}" for t in ["u32", "tup2", "optu8"] for m in ("eps", "full")],
+    quick=lambda seed: [dict(harnesses=names("c10", [f"c10_{t}_{m}" for t in ["u32", "tup2", "bool"] for m in ("eps", "full")],
                                              bound="all 2^232 values of the 29 fixed header bytes; value symbolic", what="priority-list oracle: specific error carrying the offending value, or the value")
                              + [twin("c10::c10_twin_reach")])],
     thorough=lambda seed: [dict(harnesses=names("c10", [f"c10_{t}_{m}" for t in C10_TYPES for m in ("eps", "full")],
                                                 bound="all 2^232 values of the 29 fixed header bytes; value symbolic", what="priority-list oracle")
                                 + [twin("c10::c10_twin_reach")], timeout=1800)],
     bounds={"header": "all 29 bytes symbolic at once (superset of single-bit flips, reversed cookie, all 65536 minors)",
-            "stream": "<= 64 bytes (reader types with short type names: u32, bool, u64, (u16,u16), [u32;1], Option<u8>)"},
+            "stream": "<= 64 bytes (reader types with short type names: u32, bool, u64, i8, (u16,u16), [u32;1])"},
     outside=["corruption of the type-name length/bytes (not a checked field)", "reader types whose stream exceeds 64 bytes (CBMC loses field sensitivity; check_header is generic code, only the two hash constants and the name differ per type)"],
     stubs=["Sink", "Exact", "Al", "core::str::from_utf8 -> env::from_utf8_stub"], assumptions=[])
 
@@ -208,3 +208,187 @@ PLAN["C19"] = dict(quick=lambda seed: c19_jobs("quick"), thorough=lambda seed: c
                            "seek": "no bound: all 2^64 positions x all SeekFrom"},
                    outside=["positions near usize::MAX (std aborts on capacity overflow)", "states larger than 57 bytes", "histories longer than 3 steps"],
                    stubs=[], assumptions=["std::io::Cursor<Vec<u8>> run on the same inputs inside the harness is the reference"])
+
+import json as _json, os as _os
+_HERE = _os.path.dirname(_os.path.abspath(__file__))
+
+
+def _src(mod):
+    return open(_os.path.join(_os.path.dirname(_HERE), "harness", "src", mod)).read()
+
+
+def _fns(mod, pat):
+    import re
+    return re.findall(pat, _src(mod), re.M)
+
+
+# ---- C04 ---------------------------------------------------------------------------------
+C04_WORDS = _fns("c04.rs", r"\b(c04_words_\w+):")
+C04_TABLES = ["c04_table_struct_mutants", "c04_table_layout_mutants", "c04_table_generic_mutants", "c04_table_enum_mutants", "c04_table_interchangeable"]
+C04_CROSS = _fns("c04.rs", r"\b(c04_cross_\w+):")
+PLAN["C04"] = dict(
+    quick=lambda seed: [dict(harnesses=names("c04", C04_WORDS[:4], bound="all 2^128 values of the stored type/alignment digest words", what="hash errors by priority, never a value unless both words are the reader's")
+                             + names("c04", C04_TABLES, bound="no symbolic input: digests evaluated through the real TypeHash/AlignHash impls with the real xxh3", what="pairwise distinct where the structure differs; equal for the interchangeable trio", covers="none")
+                             + names("c04", C04_CROSS[:8], bound="value of T symbolic, read as near-miss U", what="refused with the expected hash error", covers="none")
+                             + [twin("c04::c04_twin_reach")], timeout=900)],
+    thorough=lambda seed: [dict(harnesses=names("c04", C04_WORDS, bound="all 2^128 digest words", what="hash errors by priority")
+                                + names("c04", C04_TABLES + ["c04_table_universe"], bound="evaluation (no symbolic input)", what="digest tables", covers="none")
+                                + names("c04", C04_CROSS, bound="value of T symbolic, read as near-miss U", what="refused with the expected hash error", covers="none")
+                                + [twin("c04::c04_twin_reach")], timeout=3600)],
+    bounds={"stored_digests": "all 2^128 values (solver)", "tables": "universe (106 cases) + 23 near-miss mutants (harness/src/mutants.rs): evaluated, 0 solver variables"},
+    outside=["collisions of xxh3 itself", "types and mutants outside the listed universe", "reader types whose stream exceeds 64 bytes for the end-to-end pairs"],
+    stubs=["Sink", "Exact", "Al", "core::str::from_utf8 -> env::from_utf8_stub"], assumptions=["the digest-table half is enumeration over a finite universe evaluated inside the model checker; the solver adds nothing there"])
+
+# ---- C06 ---------------------------------------------------------------------------------
+_C06 = _json.load(open(_os.path.join(_HERE, "c06_names.json")))
+
+
+def c06_jobs(tier):
+    qcases = {r["case"] for r in U.ROWS if r["quick"]} | {"OptU8"}
+    hs = []
+    for nm, case, sh, fn in _C06["instances"]:
+        row = U.BY.get(case, dict(qshapes=[0], ty=case))
+        if tier == "quick" and (case not in qcases or sh not in row["qshapes"]):
+            continue
+        hs.append(H("c06::" + nm, bound=f"{row.get('ty', case)}: all values, shape {sh}; header + value",
+                    what=("bytes == reference encoder with golden digests; reference bytes read back in both modes" if fn == "conform" else "bytes == reference encoder with golden digests (stream > 64 B: no read-back)"),
+                    role=f"c06/{case}"))
+    hs += names("c06", [f"c06_digests_{i}" for i in range(_C06["digest_chunks"])] + ["c06_digests_mutants"], bound="evaluation: current digests vs digests recorded from the pinned build", what="golden digests", covers="none")
+    corp = _C06["corpus"] if tier == "thorough" else _C06["corpus"][::3]
+    hs += names("c06", ["c06_corpus_" + c for c in corp], bound="evaluation on a file written by the pinned build", what="decodes to the recorded value in both modes", covers="none")
+    hs += [twin("c06::c06_twin_reach")]
+    return [dict(harnesses=hs, timeout=900 if tier == "quick" else 2400)]
+
+
+PLAN["C06"] = dict(quick=lambda seed: c06_jobs("quick"), thorough=lambda seed: c06_jobs("thorough"),
+                   bounds=dict(RT_BOUNDS, golden="digests of 107 universe types + 25 mutant/extra types and 43 corpus files recorded from the pinned build 709c463"),
+                   outside=COMMON_OUTSIDE + ["padding bytes inside zero-copy structs (uninitialised in the source value): don't-care", "zero-copy enums (ZE) and the 12-tuple: no reference image written", "read-back of reference bytes only for streams <= 64 bytes"],
+                   stubs=RT_STUBS + ["refenc.rs: independent reference encoder of format 1.1", "golden.rs: digests recorded from the pinned build"], assumptions=["the golden files in /verif/harness/golden are the pinned build's output"])
+
+# ---- C05 ---------------------------------------------------------------------------------
+DERIVED = ["DeepSVec", "DeepSStr", "DeepSU32", "MentionU16", "BothC", "GenC", "TupSC", "UnitSC", "DeepPrimsC", "HoldZUnit", "HoldZAl4", "HoldZeroS",
+           "ZeroSC", "ZTailC", "ZAl32C", "ZGenU32", "ZNestC", "ZConst3", "ZEC", "ZUnitC", "ZAl4C", "EnU8", "EnVec", "E1C", "E2C", "E5C", "OptZeroS", "VecDeepS",
+           "VecZeroS", "VecZE", "ArrZeroSx2"]
+
+
+def c05_jobs(tier):
+    rows = [U.BY[c] for c in DERIVED]
+    hs = []
+    for fam, what in (("c01", "derived code: full-copy round trip"), ("c02", "derived code: eps == original under the substitution (DeserType asserted at type level) and == full")):
+        for row in rows:
+            if tier == "quick" and not row["quick"] and row["case"] not in ("MentionU16", "BothC", "ZGenU32", "E1C", "ZConst3", "TupSC"):
+                continue
+            pres = [0] if tier == "quick" else U.residues(row, "quick")
+            for pre in pres:
+                for sh in U.shapes(row, tier):
+                    hs.append(H("inst::" + U.inst_name(fam, row["case"], pre, sh), bound=f"{row['ty']}: all values, residue {pre}, shape {sh}", what=what, role=f"c05/{fam}/{row['case']}"))
+    hs += names("c05", _fns("c05.rs", r"^pub fn (c05_\w+)\(\)"), bound="grammar corner: all values", what="derived code compiles and round-trips in both modes", covers="none")
+    hs += [twin("c01::c01_twin_reach")]
+    return [dict(harnesses=hs, timeout=900 if tier == "quick" else 2400)]
+
+
+PLAN["C05"] = dict(quick=lambda seed: c05_jobs("quick"), thorough=lambda seed: c05_jobs("thorough"),
+                   bounds=dict(RT_BOUNDS, definitions="31 derived definitions of harness/src/universe.rs + the grammar corners of c05.rs (compiled by the Kani build on every run: compilation success is observed)"),
+                   outside=["every definition not listed; macro robustness on unsupported syntax", "a where-clause bound on a *replaced* type parameter and a parameter that is both a field type and mentioned inside another field's type are rejected by rustc (grammar boundary, compile-time, see DESIGN.md)"],
+                   stubs=RT_STUBS, assumptions=["the exact DeserType is asserted at type level in cases.rs (`let e: &DeepS<&[u16]> = e;`): a wrong substitution is a build failure of the harness crate, reported as inconclusive build error with the compiler message"])
+
+# ---- C08 / C09 ----------------------------------------------------------------------------
+FS_STUBS = ["std::path::Path::metadata -> Ok(zeroed Metadata)", "std::fs::Metadata::len -> length of the in-memory file", "std::fs::File::open/create -> File::from_raw_fd(3|4)",
+            "<File as Read>::read -> copies from the in-memory file image, whole request", "<File as Write>::write/flush -> appends to an in-memory output buffer",
+            "<OwnedFd as Drop>::drop -> no-op", "std::backtrace::Backtrace::capture -> Backtrace::disabled()",
+            "std::alloc::alloc -> alloc_zeroed + fill 0xAA + record (ptr, size, align)", "core::str::from_utf8 -> env::from_utf8_stub"]
+C08_MEM = ["c08_load_mem_u32", "c08_load_mem_u32_trail5", "c08_load_mem_tup2", "c08_load_mem_arru32x1", "c08_load_mem_u64_trail20", "c08_overaligned_refused"]
+C08_REST = ["c08_load_full_u32", "c08_load_full_tup2", "c08_store_u32", "c08_store_tup2"]
+PLAN["C08"] = dict(
+    quick=lambda seed: [dict(cfg="nommap", harnesses=names("c08", C08_MEM[:3] + C08_REST[:1] + C08_REST[2:3] + ["c08_overaligned_refused"], bound="file = real serialization of a symbolic value (+ trailing bytes); fs stubs", what="load_mem/load_full/store vs the serialized bytes; region aligned, rounded, zero tail, borrows inside, move/box", covers="none")
+                             + [twin("c08::c08_twin_reach")], timeout=900),
+                        dict(cfg="default", tag="1", harnesses=names("c08", ["c08_load_mem_u32"], bound="default features (mmap compiled in), success path only", what="load_mem vs the serialized bytes", covers="none"), timeout=900)],
+    thorough=lambda seed: [dict(cfg="nommap", harnesses=names("c08", C08_MEM + C08_REST + ["c08_load_mem_optu8"], bound="file = real serialization of a symbolic value; fs stubs", what="load_mem/load_full/store", covers="none") + [twin("c08::c08_twin_reach")], timeout=2400),
+                           dict(cfg="default", tag="1", harnesses=names("c08", ["c08_load_mem_u32", "c08_load_mem_tup2"], bound="default features, success path", what="load_mem", covers="none"), timeout=2400)],
+    bounds={"files": "<= 64 bytes; reader types u32, u64, (u16,u16), [u32;1], Option<u8>; trailing bytes 0, 5, 20", "features": "no-mmap build for every harness; default build for the success path"},
+    outside=["load_mmap, mmap and the 8 flag sets (mmap/madvise/mprotect FFI inside mmap-rs: a stub would be the property)", "cross-thread reads (Send/Sync impls): Kani has no concurrency",
+             "page-size effects, real file systems, short reads of a real file (C14 covers read_exact)", "files larger than 64 bytes"],
+    stubs=FS_STUBS, assumptions=["every stub of fsenv.rs"])
+C09_ALL = ["c09_release_u32", "c09_release_tup2", "c09_release_arr", "c09_fail_wrong_type", "c09_fail_wrong_type_zero", "c09_fail_truncated", "c09_fail_bad_magic", "c09_fail_bad_tag",
+           "c09_escape_deref", "c09_escape_asref", "c09_scoped_use", "c09_eps_scope"]
+PLAN["C09"] = dict(
+    quick=lambda seed: [dict(cfg="nommap", harnesses=[H("c09::" + n, bound="load_mem under fs stubs, no-mmap build; file contents symbolic", what="release exactly once / no leak on failure / no use after release through safe code", covers="none", role="load_mem/" + n[4:]) for n in C09_ALL]
+                             + [twin("c09::c09_twin_reach")], timeout=900)],
+    thorough=lambda seed: [dict(cfg="nommap", harnesses=[H("c09::" + n, bound="load_mem under fs stubs, no-mmap build", what="lifetime of the backing memory", covers="none", role="load_mem/" + n[4:]) for n in C09_ALL] + [twin("c09::c09_twin_reach")], timeout=2400)],
+    bounds={"loader": "load_mem only", "failure_causes": "wrong type (2 pairs), truncated file, corrupt magic, corrupt tag"},
+    outside=["the borrow-checker half (programs that must be REJECTED by rustc): a type-check verdict is not a solver query; only the accept-side programs are compiled here",
+             "load_mmap / mmap regions (mmap-rs objects, FFI); /proc/self/maps and real allocator accounting"],
+    stubs=FS_STUBS, assumptions=["kani::mem::can_dereference on the block recorded by the alloc stub decides allocated / released"])
+
+# ---- C11 / C14 -----------------------------------------------------------------------------
+# failed checks that the statement of C11 allows for ε-copy of a truncated stream: bounds-check panics in /repo's safe slice code
+C11_ALLOW = [r"core::slice::index::", r"index out of bounds", r"core::panicking::panic_bounds_check", r"slice_index_fail",
+             r"Result::<.*TryFromSliceError>::unwrap|unwrap_failed"]
+C11_FULL = _fns("c11.rs", r"\b(c11_full_\w+) =")
+C11_EPS = _fns("c11.rs", r"\b(c11_eps_\w+) =")
+C11_EXACT = _fns("c11.rs", r"\b(c11_exact_\w+) =")
+C11_HDR = _fns("c11.rs", r"\b(c11_hdr_\w+) =")
+
+
+def c11_jobs(tier):
+    q = tier == "quick"
+    full = C11_FULL[:8] if q else C11_FULL
+    eps = C11_EPS[:9] if q else C11_EPS
+    ex = C11_EXACT[:4] if q else C11_EXACT
+    hdr = C11_HDR[:2] if q else C11_HDR
+    hs = names("c11", full + [h for h in hdr if h.endswith("_full")], bound="every cut point k < len (symbolic), values symbolic", what="Err(ReadError), never a value")
+    hs += [H("c11::" + n, bound="every cut point k < len (symbolic), values symbolic", what="never a value; only bounds-check panics tolerated", allow=C11_ALLOW, covers="none") for n in eps + [h for h in hdr if h.endswith("_eps")]]
+    hs += [H("c11::" + n, bound="exact-size heap copy of the prefix (K bytes): any read outside it is a pointer-check failure", what="never a value, no out-of-object access", allow=C11_ALLOW, covers="none") for n in ex]
+    hs += [twin("c11::c11_twin_reach")]
+    return [dict(harnesses=hs, timeout=900 if q else 2400)]
+
+
+PLAN["C11"] = dict(quick=lambda seed: c11_jobs("quick"), thorough=lambda seed: c11_jobs("thorough"),
+                   bounds=dict(RT_BOUNDS, cut="every k in [0, len) as a solver variable; exact-object variants at listed K"),
+                   outside=COMMON_OUTSIDE + ["load_full / mmap of a truncated file (load_full reduces to deserialize_full over BufReader<File>: covered at the ReadNoStd boundary; mmap is FFI)", "corruption (as opposed to truncation) of length words"],
+                   stubs=RT_STUBS, assumptions=["for ε-copy the property allows an error or a bounds-check panic: failed checks whose function/description is a slice-index or bounds-check panic are tolerated, every other failed check (pointer, arithmetic, other panics, the Ok assertion) is a violation"])
+
+C14_FAIL = _fns("c14.rs", r"\b(c14_fail_\w+):")
+PLAN["C14"] = dict(
+    quick=lambda seed: [dict(harnesses=names("c14", C14_FAIL[:9], bound="failure position k in 0..=len (symbolic), values symbolic", what="(A) value == original iff no failure, else ReadError; partial values dropped soundly")
+                             + names("c14", ["c14_std_read_exact_4", "c14_chunky_u32", "c14_chunky_optu8"], bound="<= 6 read calls: symbolic chunk sizes, Interrupted, early EOF", what="(B)/(C) fragmentation does not change the bytes/value; early EOF is ReadError")
+                             + [twin("c14::c14_twin_reach")], timeout=900)],
+    thorough=lambda seed: [dict(harnesses=names("c14", C14_FAIL, bound="failure position symbolic", what="(A)") + names("c14", ["c14_std_read_exact_4", "c14_std_read_exact_8", "c14_chunky_u32", "c14_chunky_optu8"], bound="<= 6 read calls", what="(B)/(C)")
+                                + [twin("c14::c14_twin_reach")], timeout=2400)],
+    bounds=dict(RT_BOUNDS, fail_at="every k in 0..=len", fragmentation="requests <= 8 bytes, <= 6 read calls per harness"),
+    outside=COMMON_OUTSIDE + ["fragmentation of long streams in one query (decomposed at the ReadNoStd trait boundary: (A)+(B) compose because the deserializers call the reader only through read_exact - an argument, not a solver result)", "[T;N] deep arrays leak already-built items on mid-array failure (leak, not corruption)"],
+    stubs=RT_STUBS + ["Exact::failing: ReadNoStd failing at a symbolic position", "Chunky: io::Read with symbolic chunk sizes / Interrupted / early EOF"], assumptions=[])
+
+# ---- C17 / C18 -------------------------------------------------------------------------------
+C17_RT = ["c17_value", "c17_slice_helper", "c17_vec", "c17_boxed_slice", "c17_array", "c17_slice_ref", "c17_seriter", "c17_toplevel"]
+C17_PROBES = [
+    dict(feature="p_deep_field", expect="reject", diag=r"ZeroCopy|CopyType|is not satisfied|type mismatch", what="zero-copy struct with a deep-copy (but Copy) field"),
+    dict(feature="p_ref_field", expect="reject", diag=r"ZeroCopy|CopyType|is not satisfied|type mismatch|lifetime", what="zero-copy struct holding a &'static [u8]"),
+    dict(feature="p_vec_field", expect="reject", diag=r"ZeroCopy|CopyType|Copy|is not satisfied|type mismatch", what="zero-copy struct with a Vec field"),
+    dict(feature="p_string_field", expect="reject", diag=r"ZeroCopy|CopyType|Copy|is not satisfied|type mismatch", what="zero-copy struct with a String field"),
+    dict(feature="p_boxslice_field", expect="reject", diag=r"ZeroCopy|CopyType|Copy|is not satisfied|type mismatch", what="zero-copy struct with a Box<[T]> field"),
+    dict(feature="p_no_repr_c", expect="reject", diag=r"not repr\(C\)|proc-macro derive panicked", what="zero_copy without repr(C)"),
+    dict(feature="p_both_attrs", expect="reject", diag=r"both zero copy and deep copy|proc-macro derive panicked", what="zero_copy and deep_copy together"),
+    dict(feature="p_nested_bad", expect="reject", diag=r"ZeroCopy|CopyType|is not satisfied|type mismatch", what="vector of a wrongly declared zero-copy struct"),
+    dict(feature="ok_control", expect="accept", diag="", what="control: a valid zero-copy definition compiles and reaches the writer"),
+]
+PLAN["C17"] = dict(
+    quick=lambda seed: [dict(harnesses=[H("c17::" + n, bound="impostor value symbolic; slice length <= 2", what="only failed check = panic in check_zero_copy; writer and end of harness unreachable",
+                                          allow=[r"check_zero_copy"], must_fail_allowed=True, covers="none") for n in C17_RT]
+                             + [H("c17::c17_twin_reach", expect="fail", covers="none", what="twin: a correctly declared type reaches the writer")]),
+                        dict(kind="c17probe", probes=C17_PROBES)],
+    thorough=lambda seed: [dict(harnesses=[H("c17::" + n, bound="impostor value symbolic", what="panic before any byte", allow=[r"check_zero_copy"], must_fail_allowed=True, covers="none") for n in C17_RT]
+                                + [H("c17::c17_twin_reach", expect="fail", covers="none", what="twin")]),
+                           dict(kind="c17probe", probes=C17_PROBES)],
+    bounds={"definitions": "8 wrong declarations (probes/c17) + a hand-written impostor through 8 raw-memory writers"},
+    outside=["definitions not listed", "the compile-time layer is a compiler verdict observed inside the Kani build (trait-bound error or derive panic), not a solver verdict; the solver decides the run-time layer and any probe that does compile"],
+    stubs=["Tripwire: WriteNoStd whose write_all is an assert!(false)"], assumptions=[])
+
+C18_ALL = _fns("c18.rs", r"^\s+(c18_\w+) @")
+PLAN["C18"] = dict(
+    quick=lambda seed: [dict(harnesses=names("c18", C18_ALL[:9] + ["c18_toplevel_u32"], bound="concrete shape, field values symbolic, start residue per instance", what="bytes equal plain serialization; rows pre-order/in-stream/tiling/zero padding/aligned; debug() and to_csv() run", covers="none")
+                             + [twin("c18::c18_twin_reach")], timeout=900)],
+    thorough=lambda seed: [dict(harnesses=names("c18", C18_ALL + ["c18_toplevel_u32"], bound="concrete shape, field values symbolic", what="schema rows vs bytes", covers="none") + [twin("c18::c18_twin_reach")], timeout=2400)],
+    bounds={"shapes": "15 concrete shapes incl. zero-sized fields, empty sequences, nested composites, header rows (top level u32)"},
+    outside=["value-dependent shapes explored symbolically (CBMC runs out of memory)", "the rendered text (alloc::fmt::format is stubbed)", "shapes not listed"],
+    stubs=["alloc::fmt::format -> String::new()", "Sink"], assumptions=[])
